@@ -97,6 +97,16 @@ def _returned_arcs(fx, g, depth):
     return out, unknown
 
 
+def _runs_a_driver(fx, cg, p):
+    """A workspace function from which a driver's copy() is reached (static dispatch through an enum of drivers,
+    an inherent `copy()` that delegates)."""
+    if p not in fx.fns or fx.fns[p].crate != "libxcp":
+        return False
+    r = cg.reach(p)
+    return DRIVER_COPY in r or any(x.endswith(" as libxcp::drivers::CopyDriver>::copy") for x in r) or \
+        p.endswith(" as libxcp::drivers::CopyDriver>::copy")
+
+
 def errors_delivered(fx):
     obs = []
     cg = q.callgraph(fx)
@@ -106,7 +116,7 @@ def errors_delivered(fx):
             continue
         for bi, t in f.calls():
             o, p = q.names(t)
-            if o != DRIVER_COPY:
+            if o != DRIVER_COPY and not _runs_a_driver(fx, cg, p):
                 continue
             # the updater is the argument of type Arc<dyn StatusUpdater> (whatever else copy() takes)
             ai = [i for i, ty in enumerate(t.get("arg_tys") or []) if "StatusUpdater" in ty and "Arc<" in ty]
